@@ -22,7 +22,7 @@ Lemma add_urn_self : forall us u,
   urn_identity E (urn_normalize E u) = urn_identity E u -> has_urn E (add_urn E us u) u = true.
 Proof.
   intros us u Hid. unfold add_urn. destruct (has_urn E us u) eqn:Hh; [exact Hh|].
-  rewrite has_urn_app. unfold has_urn at 2. cbn. rewrite Hid, N.eqb_refl. apply orb_true_r.
+  rewrite has_urn_app. unfold has_urn at 2. cbn [existsb cu_urn]. rewrite Hid, N.eqb_refl. apply orb_true_r.
 Qed.
 
 Lemma step_append_mono : forall cur u v, has_urn E cur v = true -> has_urn E (urn_step E UAppend cur u) v = true.
@@ -40,6 +40,9 @@ Qed.
 Definition norm_stable (u : N) : Prop :=
   urn_valid E (urn_normalize E u) = true ->
   urn_identity E (urn_normalize E (urn_normalize E u)) = urn_identity E (urn_normalize E u).
+
+Lemma norm_fixed : forall u, urn_norm1 E u = u -> urn_normalize E u = u.
+Proof. intros u H. unfold urn_normalize. cbn [norm_iter]. rewrite H, N.eqb_refl. reflexivity. Qed.
 
 Lemma fold_append_all : forall todo cur u,
   Forall norm_stable todo -> In u todo -> urn_valid E (urn_normalize E u) = true ->
@@ -152,7 +155,8 @@ Proof.
   { destruct md.
     - apply fold_append_fix. intros u Hin Hv. unfold cur. apply fold_append_all; [|exact Hin | exact Hv].
       cbn [mod_env_ok] in Hok. rewrite forallb_forall in Hok. apply Forall_forall. intros x Hx Hvx.
-      specialize (Hok x Hx). rewrite Hvx in Hok. cbn [negb orb] in Hok. apply N.eqb_eq in Hok. exact Hok.
+      specialize (Hok x Hx). rewrite Hvx in Hok. cbn [negb orb] in Hok. apply N.eqb_eq in Hok.
+      rewrite (norm_fixed _ Hok). reflexivity.
     - apply fold_remove_fix. intros u Hin Hv. unfold cur. apply fold_remove_all; assumption.
     - reflexivity. }
   rewrite Hfix, listN_eqb_refl in H2. cbn [negb] in H2. inversion H2. reflexivity.
@@ -417,7 +421,7 @@ Example ex_twice :
 Proof. reflexivity. Qed.
 
 Definition with_parse_dt (E : menv) (p : text -> option N) : menv :=
-  {| max_field_chars := max_field_chars E; urn_normalize := urn_normalize E; urn_valid := urn_valid E;
+  {| max_field_chars := max_field_chars E; urn_norm1 := urn_norm1 E; urn_valid := urn_valid E;
      urn_identity := urn_identity E; urn_scheme := urn_scheme E; urn_set_channel := urn_set_channel E;
      urn_channel := urn_channel E;
      tel_scheme := tel_scheme E; chan_can_send := chan_can_send E; chan_supports := chan_supports E;
@@ -439,7 +443,7 @@ Qed.
 (* MaxFieldChars = 0: a field value is truncated to nothing, which is no value — nothing is reported, announced
    or stored (before fix F3f the modifier reported a change and announced an empty value) *)
 Definition with_max (E : menv) (n : N) : menv :=
-  {| max_field_chars := n; urn_normalize := urn_normalize E; urn_valid := urn_valid E;
+  {| max_field_chars := n; urn_norm1 := urn_norm1 E; urn_valid := urn_valid E;
      urn_identity := urn_identity E; urn_scheme := urn_scheme E; urn_set_channel := urn_set_channel E;
      urn_channel := urn_channel E;
      tel_scheme := tel_scheme E; chan_can_send := chan_can_send E; chan_supports := chan_supports E;
